@@ -9,6 +9,13 @@ from spellings import OPAQUE_KINDS, TRANSLUCENT_KINDS, spell
 MATCHERS = {}
 
 
+def regen_optimiser():
+    """CmGen/Optimiser.lean: the control logic of optimisation.py as it reads now (the `source_*` theorems of
+    CmProps/C02opt.lean identify it with the model)"""
+    from translate import optimiser
+    optimiser.generate()
+
+
 def judge(run, where, case, t, b, large, very, returned, ok, shown=None):
     mn, _ = thresholds(large, very)
     if wcag_ref.meets(t, b, mn):
@@ -26,7 +33,9 @@ def judge(run, where, case, t, b, large, very, returned, ok, shown=None):
 
 
 def check(run):
-    run.proof = proof_status("C02")
+    run.proof = proof_status("C02", regenerate=regen_optimiser)
+    from translate import optimiser as _opt
+    run.extra["source_translation_optimiser"] = _opt.summary()
     q = run.quick()
     n_caf = 500 if q else 12000
     n_api = 600 if q else 15000
